@@ -243,6 +243,22 @@ ADDENDA4 = {
  'C20': ('A half-rate request made on a partially open handle reaches the links the open finds: where ov_halfrate can answer 0 in state PARTOPEN (K4 with that constant), the function that completes the link table calls vorbis_synthesis_halfrate behind the point where the table has grown (R20.12; finding F49 repaired).', ''),
 }
 
+# fifth session: rules added after the batch l seeds and the V1-V3 refactoring round
+ADDENDA5 = {
+ 'C01': ('The classification codewords of a residue are read in pass 0 whenever there are partitions to read: the field that bounds the pass loop is >= 1 at every return of the look function (R01.11, K4; finding F50 repaired).  The decoder files the "do not decode" flag and the vector of a submap slot under one slot counter (R01.12 = R05.8, decode side) and hands the residue walker the number of vectors it compacted (R01.13 = R05.13).', ' + K4 on the residue look function'),
+ 'C02': ('The duplicate-post check of floor1_unpack covers all count+2 posts starting at postlist[0], the two implicit end posts included (affine forms rewritten through file-local helpers), which is what keeps the divisor of render_line positive (R02.3 unique-posts-cover-all-posts).', ''),
+ 'C03': ('The link count and the tables ov_clear walks with it change together: no return lies between a store to vf->links and the (re)allocation of vf->vi / vf->vc (R03.15, K2 flags).', ''),
+ 'C05': ('The reader takes no legal field value for the end of the packet: a field of up to 31 bits is tested against -1 only at a width that holds every value (R05.12, with a positive control).  Residue back ends that compact their vector array hand on the compaction counter, writer and readers alike (R05.13).', ''),
+ 'C07': ('The packets a seek passes over are tracked by a live decoder: every trackonly/blockin call of the seek functions is reached only with decoder and block initialised (R07.15, K5 typestate).', ' + K5 typestate at the discard loop'),
+ 'C08': ('Samples are converted to time at a link\'s rate only when they are a count of that link: no total accumulated over the links is divided by one link\'s rate (R08.11, dual clause).  A seek that failed in the callback can be repeated: _seek_helper touches the cached offset only after the callback succeeded (R08.16 = R12.6).', ''),
+ 'C09': ('A search that runs until its answer is stable runs at least once: the sentinel of `while(a!=b){a=b; ..&a..}` starts at b+c with c != 0 (R09.15).', ''),
+ 'C10': ('The cached stream offset follows the data source: every call of the seek callback is followed by a store to vf->offset before the handle is used again (R10.12, K2 flags; calls through local function pointers are resolved).', ''),
+ 'C15': ('The interpolating arm of get_setup_template leaves its search loop only with low <= request < high, so the setting stays below the table size (R15.2, exact linear domain).  The submission path forms no pointer in front of a buffer it has just allocated: the offset of `work + a - b - c` is non-negative under the if-conditions on the way (R15.15, exact linear domain).', ' + exact linear domain over guard conditions'),
+ 'C16': ('Every further condition on the way to the match counter of the two query functions is one a match implies: length >= strlen(entry) >= strlen(tag)+1 entails it (R16.6, exact linear domain).  No legal comment byte is taken for the end of the packet (R16.7 = R05.12 on the comment reader).', ' + exact linear domain (Fourier-Motzkin) over the query guards'),
+ 'C19': ('A lapped wrapper passes its worker the bound its plain counterpart validates against: a bound the counterpart never compares its position with is reported (R19.11).', ''),
+ 'C20': ('A refusal met while the open re-applies a half-rate request takes the request back from every link, link 0 included (R20.12, K4 index range of the reset calls).', ''),
+}
+
 def main():
     props = [json.loads(l)['id'] for l in open(os.path.join(V, 'properties.jsonl'))]
     checks = []
@@ -255,6 +271,9 @@ def main():
             if pid in ADDENDA4:
                 text = text + ' ' + ADDENDA4[pid][0]
                 tech = tech + ADDENDA4[pid][1]
+            if pid in ADDENDA5:
+                text = text + ' ' + ADDENDA5[pid][0]
+                tech = tech + ADDENDA5[pid][1]
             checks.append({
                 'property_id': pid,
                 'quick_cmd': f'./check {pid} --tier quick',
